@@ -7,8 +7,14 @@ import NngModel.Proofs.SurveyLocal
 import NngModel.Proofs.SurveyOut
 import NngModel.Proofs.SurveyPoll
 import NngModel.Proofs.SurveyRespPoll
+import NngModel.Proofs.SurveyRespQueue
+import NngModel.Proofs.SurveyRespWritable
+import NngModel.Proofs.RawSurvPoll
+import NngModel.Props.C13
 import NngModel.Spec.Survey
+import NngModel.Spec.RawSurvey
 import NngModel.Generated.C07
+import NngModel.Generated.C07X
 namespace Nng.C07
 open Nng Nng.Proto
 
@@ -134,14 +140,18 @@ theorem S7_surveyor_nb_outcomes (s : Survey.State) (c : Survey.Ctx) (a : Nat) :
 def S6_wire_statement : Prop :=
   ∀ evs : List Ev, ∀ w ∈ (Respond.run {} evs).1.wire, w.expected = some (w.pipe, w.m.hdr)
 
-/-- S6, proved part: the backtrace always; the pipe for responses handed over by the send call
-    itself.  Missing for the full statement: that a response which had to wait for a busy pipe is
-    later sent on the pipe it was queued for (needs the invariant `k ∈ p.sendq → saio(k).pipe = p`,
-    i.e. that cancel/close/pipe-loss keep the per-pipe wait lists and `ctx->spipe` consistent). -/
+/-- S6 — proved in full (C07X): also a response that had to wait behind a busy pipe goes out on the
+    pipe it was queued for, with the saved backtrace.  Invariant (Proofs/SurveyRespQueue.lean,
+    `QInv`): every key on a pipe's wait list belongs to a context whose parked send was computed for
+    exactly that pipe (`exp = some (pipe, hdr)`), wait lists have no duplicates; kept by send, receive,
+    pipe receive, send completion, cancel / abort / expiry, pipe loss, context close, socket close. -/
+theorem S6_wire : S6_wire_statement := Respond.wire_full
+
+/-- the former partial statement, now a corollary -/
 theorem S6_wire_partial (evs : List Ev) :
     ∀ w ∈ (Respond.run {} evs).1.wire,
       ∃ p, w.expected = some (p, w.m.hdr) ∧ (w.direct = true → p = w.pipe) :=
-  (Respond.run_rinv {} evs Respond.rinv_init).wireOK
+  fun w hw => ⟨w.pipe, Respond.wire_full evs w hw, fun _ => rfl⟩
 
 /-- S6: in every reachable state a context's saved backtrace and pipe are those of the survey
     it received last -/
@@ -214,12 +224,38 @@ theorem S7_respondent_writable_nb_counterexample :
     (Respond.step s (.send none 1 ⟨[], [5]⟩ .nb)).2 = [Out.done 1 Err.eagain none true] ∧
     (Respond.step s (.send none 1 ⟨[], [5]⟩ .nb)).1.writable = false := by decide
 
-/-- what remains true of the send pollable, not proved (judged on no trace either: C07's judge is
-    silent about non-blocking sends, the generic C15 poll judge owns them): raised ⇒ a send that
-    may wait completes in the call (the pending survey's pipe is idle or gone) -/
+/-- what remains true of the send pollable: raised ⇒ a send that may wait completes in the call
+    (the pending survey's pipe is idle or gone) -/
 def S7_respondent_writable_statement : Prop :=
   ∀ evs : List Ev, let s := (Respond.run {} evs).1
     s.writable = true → ∀ c ∈ s.ctxs, c.key = none → ∀ a m, (Respond.ctxSend s c a m .inf).2 ≠ []
+
+/-- proved (C07X), invariant `WInv` of Proofs/SurveyRespWritable.lean: writable ⇒ the socket context has
+    a pending survey whose pipe is gone or not busy -/
+theorem S7_respondent_writable : S7_respondent_writable_statement := Respond.writable_send_completes
+
+/-- … and the completion is a success, provided no earlier response of the socket context is still
+    parked behind a busy pipe -/
+theorem S7_respondent_writable_succeeds (evs : List Ev) :
+    let s := (Respond.run {} evs).1
+    s.writable = true → ∀ c ∈ s.ctxs, c.key = none → c.saio = none →
+      ∀ a m, Out.done a 0 none false ∈ (Respond.ctxSend s c a m .inf).2 :=
+  Respond.writable_send_succeeds evs
+
+/-- the proviso is needed (observation, reproduced on the real code, corpus/C07/w1_*.ops): while the socket
+    context's previous response is parked behind busy pipe 0 it takes the next survey from idle pipe 1;
+    resp0_ctx_recv raises the send pollable from `p->busy` alone, and the send is then refused with
+    NNG_ESTATE by the "previous response still parked" test — in the call, so the statement above holds -/
+theorem S7_respondent_writable_estate_example :
+    let sv : Bytes := [0x80, 0, 0, 2, 9]
+    let evs : List Ev := [.openSock "respondent" false, .pipeAdd 98, .ctxOpen 1,
+      .recvDone 0 (.ok sv), .recv (some 1) 0 .inf, .send (some 1) 1 ⟨[], [5]⟩ .inf,
+      .recvDone 0 (.ok sv), .recv none 2 .inf, .send none 3 ⟨[], [6]⟩ .inf,
+      .pipeAdd 98, .recvDone 1 (.ok sv), .recv none 4 .inf]
+    let s := (Respond.run {} evs).1
+    s.writable = true ∧
+    (Respond.step s (.send none 5 ⟨[], [7]⟩ .inf)).2 = [Out.done 5 Err.estate none true] :=
+  Respond.writable_estate_example
 
 /-! ### non-vacuity: the hypotheses are met by concrete runs -/
 
@@ -236,5 +272,267 @@ def respondDemo : List Ev :=
 example : ((Respond.run {} respondDemo).1.wire.map fun w => (w.pipe, w.m.hdr.length, w.direct)) = [(0, 8, true)] := by decide
 
 example : (Respond.run {} respondDemo).2.getLast? = some [Out.done 2 Err.estate none true] := by decide
+
+/-! ## raw mode: raw SURVEYOR (xsurvey.c) and raw RESPONDENT (xrespond.c)
+
+  Models: Model/RawSurv.lean (the text the two C files share) instantiated by Model/Xsurvey.lean and
+  Model/Xrespond.lean, header functions from Model/Backtrace.lean (C13).  `reach` = state after any
+  event list.  Ghost lists: `accepted` (arrivals that passed the header processing), `delivered`,
+  `lost`, `sent` (messages the socket took from the upper write queue), per pipe `offered wired dropped`. -/
+
+open Nng.RawMq Nng.RawSurv
+
+/-- constants and code shapes the raw models mirror: protocol numbers, per-pipe send queue depths
+    16 / 2, default TTL 8, socket queue depths 0 / 1, and nni_msgq_aio_get/put examine the queue
+    before starting the aio (F13 repaired, c50b100) -/
+theorem raw_code_shapes :
+    Xsurvey.kind.peer = Nng.Proto.protoId 6 3 ∧ Xrespond.kind.peer = Nng.Proto.protoId 6 2 ∧
+    Xsurvey.kind.sqCap = 16 ∧ Xrespond.kind.sqCap = 2 ∧ Xsurvey.kind.ttlInit = 8 ∧ Xrespond.kind.ttlInit = 8 ∧
+    Nng.Generated.xsvSockSendq = 0 ∧ Nng.Generated.xsvSockRecvq = 1 ∧ Nng.Generated.xsvMsgqQueueFirst = 1 ∧
+    RawSurveySpec.depth false = Xsurvey.kind.sqCap ∧ RawSurveySpec.depth true = Xrespond.kind.sqCap ∧
+    RawSurveySpec.capWords * 4 = Nng.Generated.headerCap := by decide
+
+/-- X1/Y1 (delivery accounting, both raw sockets, all event sequences): every arrival that passed the
+    header processing is, exactly once, delivered, still owed by the upper read queue (stored, or
+    with its pipe's parked put) or lost (its pipe or the socket closed first); what was delivered and
+    what is owed, in that order, is a subsequence of the arrivals: delivery in arrival order (hence
+    per pipe), at most once; the queue stores at most its depth and no receiver waits while
+    anything is owed -/
+theorem raw_delivery_accounting (evs : List Ev) :
+    (∀ s, s = (Xsurvey.run {} evs).1 ∨ s = (Xrespond.run {} evs).1 →
+      (s.delivered ++ pending s.urq ++ s.lost).Perm (s.accepted.map (·.m)) ∧
+      (s.delivered ++ pending s.urq).Sublist (s.accepted.map (·.m)) ∧
+      s.urq.items.length ≤ Nng.Generated.xsvSockRecvq ∧ (s.urq.getq ≠ [] → pending s.urq = [])) := by
+  intro s hs
+  have key : ∀ k sel, Inv k sel s → _ := fun k sel (h : Inv k sel s) =>
+    (⟨h.core.urq.acct, h.core.urq.order, h.core.urq.capk ▸ h.core.urq.occ,
+      fun hne => pending_nil _ (h.core.urq.rd hne).1 (h.core.urq.rd hne).2⟩ :
+      (s.delivered ++ pending s.urq ++ s.lost).Perm (s.accepted.map (·.m)) ∧
+      (s.delivered ++ pending s.urq).Sublist (s.accepted.map (·.m)) ∧
+      s.urq.items.length ≤ Nng.Generated.xsvSockRecvq ∧ (s.urq.getq ≠ [] → pending s.urq = []))
+  rcases hs with rfl | rfl
+  · exact key _ _ (Xsurvey.reach_inv evs)
+  · exact key _ _ (Xrespond.reach_inv evs)
+
+/-- X2 (raw SURVEYOR, header of a delivered response): every accepted arrival is one that C13's
+    specification accepts with no hop limit (header capacity 16 words); the header handed up is exactly
+    its backtrace (the words up to and including the first one with the high bit, moved from the body),
+    the body the payload.  (Anything else closes the pipe: `D5_classification`.) -/
+theorem xsurveyor_response_header (evs : List Ev) :
+    ∀ a ∈ (Xsurvey.run {} evs).1.accepted,
+      BtSpec.classifyNoTtl (Nng.Generated.maxMaxTtl + 1) a.bytes = .accept a.m.hdr a.m.body := by
+  intro a ha
+  have h := ((Xsurvey.reach_inv evs).core.urq.hdr a ha).1
+  have hc := (Nng.C13.D5_classification 1 0 a.bytes (by decide)).2.2.2.2.2
+  change Bt.xsurveyRecv a.bytes = _ at h
+  rw [hc] at h
+  cases hv : BtSpec.classifyNoTtl (Nng.Generated.maxMaxTtl + 1) a.bytes with
+  | accept bt p => rw [hv] at h; simp only [Bt.ofVerdict, List.nil_append, Bt.Outcome.deliver.injEq] at h; rw [h.1, h.2]
+  | drop => rw [hv] at h; cases h
+  | malformed => rw [hv] at h; cases h
+
+/-- Y2 (raw RESPONDENT, header of a delivered survey): every accepted arrival is one that C13's
+    specification accepts under the hop limit in force when it arrived; the header handed up is the id
+    of the arrival pipe followed by exactly its backtrace, the body the payload -/
+theorem xrespondent_survey_header (evs : List Ev) :
+    ∀ a ∈ (Xrespond.run {} evs).1.accepted, ∃ bt,
+      BtSpec.classify a.ttl a.bytes = .accept bt a.m.body ∧ a.m.hdr = beEncode 4 (Xrespond.pipeId a.pipe) ++ bt := by
+  intro a ha
+  obtain ⟨h, ht⟩ := (Xrespond.reach_inv evs).core.urq.hdr a ha
+  have hc := (Nng.C13.D5_classification a.ttl (Xrespond.pipeId a.pipe) a.bytes ht).2.2.1
+  change Bt.xrespondRecv a.ttl (Xrespond.pipeId a.pipe) a.bytes = _ at h
+  rw [hc] at h
+  cases hv : BtSpec.classify a.ttl a.bytes with
+  | accept bt p =>
+    rw [hv] at h; simp only [Bt.ofVerdict, Bt.Outcome.deliver.injEq] at h
+    exact ⟨bt, by rw [h.2], by rw [← h.1]; rfl⟩
+  | drop => rw [hv] at h; cases h
+  | malformed => rw [hv] at h; cases h
+
+/-- X3 (raw SURVEYOR, fan-out accounting, all event sequences): for every pipe, what it was offered is
+    — exactly once — on its wire, in its send queue, or discarded (queue full at the offer, or still
+    queued when the pipe closed); wire ++ queue is a subsequence of the offers (per-pipe order, at most
+    once); the queue never holds more than 16; and while the pipe is attached its offers are exactly
+    the messages the socket has taken since some point (its attachment): every send, once, unchanged -/
+theorem xsurveyor_fanout_accounting (evs : List Ev) :
+    let s := (Xsurvey.run {} evs).1
+    ∀ (i : Nat) (pp : Pipe), s.pipes[i]? = some pp →
+      (pp.wired ++ pp.sq.items ++ pp.dropped).Perm pp.offered ∧ (pp.wired ++ pp.sq.items).Sublist pp.offered ∧
+      pp.sq.items.length ≤ 16 ∧
+      (pp.closed = false → ∃ n, n ≤ s.sent.length ∧ pp.offered = s.sent.drop n) := by
+  intro s i pp hi
+  have h := (Xsurvey.reach_inv evs).core.pipes i pp hi
+  refine ⟨h.perm, h.sub, ?_, ?_⟩
+  · have := h.occ; rw [h.capk] at this; exact this
+  · intro hc
+    obtain ⟨n, hn, ho⟩ := h.fan hc
+    exact ⟨n, hn, by rw [ho]; exact List.filterMap_some⟩
+
+/-- Y3 (raw RESPONDENT, routing accounting, all event sequences): the same per-pipe accounting with
+    depth 2, and while pipe `i` is attached its offers are exactly those messages the socket has taken
+    since its attachment whose first header word is the id of pipe `i`, each with that word popped and
+    the rest of the header and the body unchanged -/
+theorem xrespondent_routing_accounting (evs : List Ev) :
+    let s := (Xrespond.run {} evs).1
+    ∀ (i : Nat) (pp : Pipe), s.pipes[i]? = some pp →
+      (pp.wired ++ pp.sq.items ++ pp.dropped).Perm pp.offered ∧ (pp.wired ++ pp.sq.items).Sublist pp.offered ∧
+      pp.sq.items.length ≤ 2 ∧
+      (pp.closed = false → ∃ n, n ≤ s.sent.length ∧ pp.offered = (s.sent.drop n).filterMap (fun m =>
+        if 4 ≤ m.hdr.length ∧ beDecode (m.hdr.take 4) = Xrespond.pipeId i then some ⟨m.hdr.drop 4, m.body⟩ else none)) := by
+  intro s i pp hi
+  have h := (Xrespond.reach_inv evs).core.pipes i pp hi
+  refine ⟨h.perm, h.sub, ?_, ?_⟩
+  · have := h.occ; rw [h.capk] at this; exact this
+  · intro hc
+    obtain ⟨n, hn, ho⟩ := h.fan hc
+    refine ⟨n, hn, ?_⟩
+    rw [ho]
+    congr 1
+    funext m
+    simp only [Xrespond.sel, Bt.xrespondSend]
+    by_cases hl : m.hdr.length < 4
+    · rw [if_pos hl, if_neg (by omega)]
+    · rw [if_neg hl]
+      simp only []
+      by_cases e : beDecode (m.hdr.take 4) = Xrespond.pipeId i
+      · rw [if_pos e, if_pos ⟨by omega, e⟩]
+      · rw [if_neg e, if_neg (fun x => e x.2)]
+
+/-- X4/Y4 (one offer = nni_msgq_tryput on an attached pipe's send queue): idle pipe ⇒ the message goes
+    on the wire at once; else room ⇒ queued last; else the offered message — whole — is discarded and
+    queue and wire are untouched ("drops only whole messages, only when the pipe queue is full") -/
+theorem raw_offer_rule (i : Nat) (pp : Pipe) (m : WMsg) (hc : pp.closed = false) (hs : pp.sq.closed = false) :
+    (pp.sq.getq ≠ [] → (offer i pp m).2 = [Out.psend i m] ∧ (offer i pp m).1.wired = pp.wired ++ [m] ∧
+        (offer i pp m).1.sq.items = pp.sq.items ∧ (offer i pp m).1.dropped = pp.dropped) ∧
+    (pp.sq.getq = [] → pp.sq.items.length < pp.sq.cap → (offer i pp m).2 = [] ∧ (offer i pp m).1.wired = pp.wired ∧
+        (offer i pp m).1.sq.items = pp.sq.items ++ [m] ∧ (offer i pp m).1.dropped = pp.dropped) ∧
+    (pp.sq.getq = [] → ¬ pp.sq.items.length < pp.sq.cap → (offer i pp m).2 = [] ∧ (offer i pp m).1.wired = pp.wired ∧
+        (offer i pp m).1.sq.items = pp.sq.items ∧ (offer i pp m).1.dropped = pp.dropped ++ [m]) := by
+  unfold offer tryput
+  rw [if_neg (by simp [hc]), if_neg (by simp [hs])]
+  refine ⟨?_, ?_, ?_⟩
+  · intro hg
+    cases hq : pp.sq.getq with
+    | nil => exact absurd hq hg
+    | cons r rs => exact ⟨rfl, rfl, rfl, rfl⟩
+  · intro hg hl; rw [hg]; simp only []; rw [if_pos hl]; exact ⟨rfl, rfl, rfl, rfl⟩
+  · intro hg hl; rw [hg]; simp only []; rw [if_neg hl]; exact ⟨rfl, rfl, rfl, rfl⟩
+
+/-- X5 (raw SURVEYOR, one send in any reachable open state, any mode): it completes in the call with
+    success; every listed pipe `j` becomes `offer j pp m` — the message itself, header untouched —,
+    and whatever reaches a wire in that step is that message on an attached pipe -/
+theorem xsurveyor_send_fans_out (evs : List Ev) (a : Nat) (m : WMsg) (mode : Mode) :
+    let s := (Xsurvey.run {} evs).1
+    s.opened = true → s.closed = false →
+    (∃ o, (sockSend Xsurvey.kind s a m mode).2 = Out.done a 0 none false :: o ∧
+      ∀ x ∈ o, ∃ j pp, s.pipes[j]? = some pp ∧ pp.closed = false ∧ x = Out.psend j m) ∧
+    (∀ (j : Nat) (pp : Pipe), s.pipes[j]? = some pp → (sockSend Xsurvey.kind s a m mode).1.pipes[j]? = some (offer j pp m).1) := by
+  intro s ho hc
+  obtain ⟨_, h2, h3, _⟩ := send_completes s a m mode (Xsurvey.reach_inv evs) ho hc
+  refine ⟨⟨_, h2, ?_⟩, ?_⟩
+  · intro x hx
+    obtain ⟨j, pp, hj, hcl, e⟩ := Xsurvey.fanout_out m s.pipes 0 x hx
+    exact ⟨j, pp, hj, hcl, by simpa using e⟩
+  · intro j pp hj
+    rw [h3]
+    have := Xsurvey.fanout_at m s.pipes 0 j pp hj
+    rw [Nat.zero_add] at this
+    exact this
+
+/-- Y5 (raw RESPONDENT, routing of one send in any reachable open state, any mode): it completes in
+    the call with success; a header shorter than one word, the id 0, an id of no attached pipe ⇒ no
+    pipe changes and nothing reaches a wire (discarded); otherwise only the pipe named by the first
+    header word changes (`offer` of the message with that word popped), and whatever reaches a wire
+    in that step is that message on that pipe -/
+theorem xrespondent_send_routes (evs : List Ev) (a : Nat) (m : WMsg) (mode : Mode) :
+    let s := (Xrespond.run {} evs).1
+    s.opened = true → s.closed = false →
+    (sockSend Xrespond.kind s a m mode).2 = Out.done a 0 none false :: (Xrespond.route s.pipes m).2 ∧
+    (sockSend Xrespond.kind s a m mode).1.pipes = (Xrespond.route s.pipes m).1 ∧
+    ((m.hdr.length < 4 ∨ beDecode (m.hdr.take 4) = 0 ∨ s.pipes[beDecode (m.hdr.take 4) - 1]? = none ∨
+        ∃ pp, s.pipes[beDecode (m.hdr.take 4) - 1]? = some pp ∧ pp.closed = true) →
+      Xrespond.route s.pipes m = (s.pipes, [])) ∧
+    (∀ x ∈ (Xrespond.route s.pipes m).2, ¬ m.hdr.length < 4 ∧
+      x = Out.psend (beDecode (m.hdr.take 4) - 1) ⟨m.hdr.drop 4, m.body⟩ ∧
+      Xrespond.pipeId (beDecode (m.hdr.take 4) - 1) = beDecode (m.hdr.take 4)) ∧
+    (∀ pp, ¬ m.hdr.length < 4 → beDecode (m.hdr.take 4) ≠ 0 → s.pipes[beDecode (m.hdr.take 4) - 1]? = some pp → pp.closed = false →
+      (Xrespond.route s.pipes m).1 = s.pipes.set (beDecode (m.hdr.take 4) - 1)
+        (offer (beDecode (m.hdr.take 4) - 1) pp ⟨m.hdr.drop 4, m.body⟩).1) := by
+  intro s ho hc
+  obtain ⟨_, h2, h3, _⟩ := send_completes s a m mode (Xrespond.reach_inv evs) ho hc
+  refine ⟨h2, h3, Xrespond.route_discards s.pipes m, Xrespond.route_out s.pipes m, ?_⟩
+  intro pp hl h0 hg hcl
+  rw [Xrespond.route_named s.pipes m pp hl h0 hg hcl]
+
+/-- X6/Y6 (poll flags = readiness of the socket-level queues, both raw sockets, every reachable state):
+    the receive flag (`recvable` of the upper read queue, as nni_msgq_run_notify leaves it) is raised
+    iff a non-blocking receive returns a message — the oldest one owed —, and is down iff it returns
+    NNG_EAGAIN; while the socket is open the send flag is raised and a send completes at once -/
+theorem raw_poll_flags (evs : List Ev) (a : Nat) :
+    ∀ s, s = (Xsurvey.run {} evs).1 ∨ s = (Xrespond.run {} evs).1 →
+      ((recvable s.urq = false ∧ (sockRecv s a .nb).2 = [Out.done a Err.eagain none false]) ∨
+       (recvable s.urq = true ∧ ∃ m rest, pending s.urq = m :: rest ∧
+         ((sockRecv s a .nb).2 = [Out.done a 0 (some m) false] ∨ ∃ p, (sockRecv s a .nb).2 = [Out.done a 0 (some m) false, Out.parm p]))) ∧
+      (s.opened = true → s.closed = false → sendable s.uwq = true) := by
+  intro s hs
+  rcases hs with rfl | rfl
+  · exact ⟨nb_recv_cases _ a (Xsurvey.reach_inv evs),
+      fun ho hc => (send_completes (k := Xsurvey.kind) _ 0 ⟨[], []⟩ .nb (Xsurvey.reach_inv evs) ho hc).1⟩
+  · exact ⟨nb_recv_cases _ a (Xrespond.reach_inv evs),
+      fun ho hc => (send_completes (k := Xrespond.kind) _ 0 ⟨[], []⟩ .nb (Xrespond.reach_inv evs) ho hc).1⟩
+
+/-- the ghost outcomes of the header functions (`panic`: nni_msg_header_append_u32 overflow; `dropEinval`:
+    header buffer full inside the TTL loop) and the models' "invariant broken" exits are unreachable:
+    under any hop limit the option accepts, recv_cb ends in deliver / drop / close; a send on an open
+    socket in a reachable state puts out its completion and `psend`s, nothing else -/
+theorem raw_models_total (ttl p : Nat) (w : Bytes) (ht : ttl ≤ Nng.Generated.maxMaxTtl) :
+    (Xrespond.recvFn ttl p w ≠ .panic ∧ Xrespond.recvFn ttl p w ≠ .dropEinval) ∧
+    (Xsurvey.recvFn ttl p w ≠ .panic ∧ Xsurvey.recvFn ttl p w ≠ .dropEinval ∧ Xsurvey.recvFn ttl p w ≠ .drop) ∧
+    (∀ evs a m mode, (Xsurvey.run {} evs).1.opened = true → (Xsurvey.run {} evs).1.closed = false →
+      ∀ x ∈ (sockSend Xsurvey.kind (Xsurvey.run {} evs).1 a m mode).2, ∀ t, x ≠ Out.other t) ∧
+    (∀ evs a m mode, (Xrespond.run {} evs).1.opened = true → (Xrespond.run {} evs).1.closed = false →
+      ∀ x ∈ (sockSend Xrespond.kind (Xrespond.run {} evs).1 a m mode).2, ∀ t, x ≠ Out.other t) := by
+  have hc := Nng.C13.D5_classification ttl (Xrespond.pipeId p) w ht
+  refine ⟨?_, ?_, ?_, ?_⟩
+  · show Bt.xrespondRecv ttl (Xrespond.pipeId p) w ≠ _ ∧ Bt.xrespondRecv ttl (Xrespond.pipeId p) w ≠ _
+    rw [hc.2.2.1]
+    cases BtSpec.classify ttl w <;> simp [Bt.ofVerdict]
+  · show Bt.xsurveyRecv w ≠ _ ∧ Bt.xsurveyRecv w ≠ _ ∧ Bt.xsurveyRecv w ≠ _
+    rw [hc.2.2.2.2.2]
+    unfold BtSpec.classifyNoTtl
+    cases BtSpec.classify (Nng.Generated.maxMaxTtl + 1) w <;> simp [Bt.ofVerdict]
+  · intro evs a m mode ho hcl x hx t
+    obtain ⟨_, h2, _, _⟩ := send_completes _ a m mode (Xsurvey.reach_inv evs) ho hcl
+    rw [h2] at hx
+    simp only [List.singleton_append, List.mem_cons] at hx
+    rcases hx with rfl | hx
+    · exact fun h => by cases h
+    · obtain ⟨j, pp, _, _, e⟩ := Xsurvey.fanout_out m _ 0 x hx
+      rw [e]; exact fun h => by cases h
+  · intro evs a m mode ho hcl x hx t
+    obtain ⟨_, h2, _, _⟩ := send_completes _ a m mode (Xrespond.reach_inv evs) ho hcl
+    rw [h2] at hx
+    simp only [List.singleton_append, List.mem_cons] at hx
+    rcases hx with rfl | hx
+    · exact fun h => by cases h
+    · obtain ⟨_, e, _⟩ := Xrespond.route_out _ m x hx
+      rw [e]; exact fun h => by cases h
+
+/-! ### non-vacuity (raw) -/
+
+def xsurveyDemo : List Ev :=
+  [.openSock "surveyor" true, .pipeAdd 99, .pipeAdd 99, .send none 0 ⟨[0x80, 0, 0, 1], [1]⟩ .inf,
+   .send none 1 ⟨[0x80, 0, 0, 2], [2]⟩ .nb, .sendDone 0 0, .recvDone 1 (.ok [0, 0, 0, 5, 0x80, 0, 0, 1, 7]), .recv none 2 .nb]
+
+example : ((Xsurvey.run {} xsurveyDemo).1.pipes.map fun p => (p.wired.map (·.body), p.sq.items.map (·.body))) =
+    [([[1], [2]], []), ([[1]], [[2]])] := by decide
+example : (Xsurvey.run {} xsurveyDemo).1.delivered = [⟨[0, 0, 0, 5, 0x80, 0, 0, 1], [7]⟩] := by decide
+
+def xrespondDemo : List Ev :=
+  [.openSock "respondent" true, .pipeAdd 98, .pipeAdd 98, .recvDone 1 (.ok [0x80, 0, 0, 1, 7]), .recv none 0 .inf,
+   .send none 1 ⟨[0, 0, 0, 2, 0x80, 0, 0, 1], [8]⟩ .inf, .send none 2 ⟨[0, 0, 0, 9, 0x80, 0, 0, 1], [9]⟩ .nb]
+
+example : (Xrespond.run {} xrespondDemo).1.delivered = [⟨[0, 0, 0, 2, 0x80, 0, 0, 1], [7]⟩] := by decide
+example : ((Xrespond.run {} xrespondDemo).1.pipes.map fun p => p.wired) = [[], [⟨[0x80, 0, 0, 1], [8]⟩]] := by decide
 
 end Nng.C07
